@@ -420,7 +420,10 @@ def rand_rare_policy(rng, m):
     cands = [s for s in range(m["N"]) if not m["abs"][s] and sum(m["avail"][s]) >= 2]
     if not cands:
         return None
-    for s in rng.sample(cands, min(len(cands), rng.choice([1, 1, 2]))):
+    # ONE state with a rare entry per policy: with two of them in series the chance of leaving a loop is
+    # eps^2 ~ 1e-18, below float resolution next to 1 (I - P is then singular in floating point although the exact
+    # value is finite) - no exact evaluator working in doubles can be held to that
+    for s in rng.sample(cands, 1):
         av = [a for a in range(m["K"]) if m["avail"][s][a]]
         ordinary = [a for a in av if wq[s][a] > 0]
         if len(ordinary) == len(av):           # every available action is used: demote one of them
